@@ -57,8 +57,16 @@ func (f funcMapType[V]) Iter(yield func(key string, v Value) bool) {
 	}
 }
 
+// Size returns the number of keys which are available. A key the map function
+// reports as not available is no entry of the map, also Iter skips it.
 func (f funcMapType[V]) Size() int {
-	return len(f.mff.keys)
+	n := 0
+	for _, k := range f.mff.keys {
+		if _, ok := f.mff.fMap(f.value, k); ok {
+			n++
+		}
+	}
+	return n
 }
 
 type emptyMapStorage struct {
